@@ -794,13 +794,19 @@ def _helpers(chk, ctx) -> None:
     ok = False
     got = []
     saw_builtin = False
+    ok_exact = True
     for p in ctx.paths(dv):
         if not p.returned:
             continue
         r = p.outcome[1]
+        integral = T.spec('isinstance(dividend, Integral)', boolean=True)
+        cs = p.conds(flat=True)
         if r[0] == 'mcall' and r[2] == 'divmod' and r[1] == ('name', 'builtins'):
-            saw_builtin = r[3] == (('name', 'dividend'), ('name', 'divisor'))
+            saw_builtin = r[3] == (('name', 'dividend'), ('name', 'divisor')) and integral in cs
+            ok_when = saw_builtin
             continue
+        if T.mk_not(integral) not in cs:
+            ok_exact = False
         # cast(type, (q, r)) or (q, r)
         tup = r
         if r[0] == 'call' and r[1] == 'cast' and len(r[2]) == 2:
@@ -810,8 +816,9 @@ def _helpers(chk, ctx) -> None:
             total = T.add(T.mul(q, ('name', 'divisor')), rem)
             got.append(T.show(total))
             ok = total == ('name', 'dividend') and q == T.spec('dividend / divisor')
-    chk.ob('C01.helpers', 'utilities.divmod', ok and saw_builtin, dv.loc,
-           'quotient * divisor + remainder == dividend symbolically on the non-integral path; the integral path is builtins.divmod(dividend, divisor)',
+    chk.ob('C01.helpers', 'utilities.divmod', ok and saw_builtin and ok_exact, dv.loc,
+           'quotient * divisor + remainder == dividend symbolically on the non-integral path; the integral path - integers and nothing else: '
+           'Fraction, Decimal and float chips divide exactly - is builtins.divmod(dividend, divisor)',
            got=got, want='dividend')
     rk = prog.func('utilities.rake')
     ok = True
